@@ -375,6 +375,13 @@ func (pa *provAnalysis) call(fn *ssa.Function, ci ssa.CallInstruction, get func(
 		if ts == nil {
 			return
 		}
+		if ct := E.S.Contracts[E.P.Names[t]]; ct != nil && ct.Pure && ct.Trusted {
+			// trusted frame: the callee writes nothing the caller can observe (listed as an assumption)
+			for _, rr := range ts.Ret {
+				res |= rr & (bit(rootFresh) | bit(rootGlob) | bit(rootUnknown))
+			}
+			return
+		}
 		mapRoot := func(j int) Roots {
 			if j < len(t.Params) {
 				if j < len(actuals) {
